@@ -54,7 +54,8 @@ Fixpoint mem_str (x : str) (l : list str) : bool :=
   match l with [] => false | y :: r => str_eqb x y || mem_str x r end.
 
 Definition code_sites : sites := {| s_worker := true; s_collector := true; s_producer := true; s_consumer := true; s_try := true;
-     s_fresh := [m_list_map; m_list_accept; m_list_multiUse] |}.
+     s_fresh := [] |}   (* since "fix: the recursion limit also covers recursion through map, accept and multiUse":
+                           their private stacks continue the depth count (funcGen.NewEmptyStackBelow) *).
 Definition old_sites : sites := {| s_worker := false; s_collector := false; s_producer := false; s_consumer := false; s_try := false;
      s_fresh := [m_list_map; m_list_accept; m_list_multiUse] |}.
 
